@@ -894,7 +894,10 @@ def c15(res, rng, tier, replay=None):
             res.count('link:' + c.link)
             res.count('window:%s..%s' % (c.mind, c.maxd))
             if got != exp:
-                cls = 'max_below_prefix' if (hi is not None and hi < pm['pivot']) else None
+                # the known class is narrow: below the prefix the saturated window still yields the prefix directory itself -- and nothing else
+                ncomp = lambda q: len([x for x in q.split('/') if x])
+                cls = 'max_below_prefix' if (hi is not None and hi < pm['pivot'] and not [q for q in exp if q not in got]
+                                             and all(ncomp(q) == pm['pivot'] for q in got if q not in exp)) else None
                 if cls and cls in kfs:
                     res.known_hits[cls] = res.known_hits.get(cls, 0) + 1
                 else:
